@@ -246,6 +246,104 @@ func fileStorageChecks(r *vlib.RNG, base string) (fails []string, stats map[stri
 	}
 	stats["fs_read_only_checks"]++
 
+	// ---- 3b. read-only owners of a directory whose manifest pointer was left unclean by a crash inside
+	// setMeta / newManifest (pending CURRENT.<n>, only CURRENT.bak, stale pending file, garbage CURRENT with a
+	// good CURRENT.bak): the read-write open repairs these states; a read-only open must serve the data and
+	// leave every file as it found it.
+	{
+		curName := ""
+		if b, err := os.ReadFile(filepath.Join(dir, "CURRENT")); err == nil {
+			curName = string(bytes.TrimSpace(b))
+		}
+		var curNum int
+		if _, err := fmt.Sscanf(curName, "MANIFEST-%d", &curNum); err != nil {
+			fail("cannot parse CURRENT %q of a cleanly closed DB", curName)
+			return
+		}
+		type prep struct {
+			name string
+			f    func(d string) error
+		}
+		preps := []prep{
+			{"pending CURRENT.<n> naming a newer manifest", func(d string) error {
+				b, err := os.ReadFile(filepath.Join(d, curName))
+				if err != nil {
+					return err
+				}
+				n := curNum + 100
+				if err := os.WriteFile(filepath.Join(d, fmt.Sprintf("MANIFEST-%06d", n)), b, 0o644); err != nil {
+					return err
+				}
+				return os.WriteFile(filepath.Join(d, fmt.Sprintf("CURRENT.%d", n)), []byte(fmt.Sprintf("MANIFEST-%06d\n", n)), 0o644)
+			}},
+			{"only CURRENT.bak survives", func(d string) error {
+				return os.Rename(filepath.Join(d, "CURRENT"), filepath.Join(d, "CURRENT.bak"))
+			}},
+			{"stale pending CURRENT.1 naming a missing manifest", func(d string) error {
+				return os.WriteFile(filepath.Join(d, "CURRENT.1"), []byte("MANIFEST-000001\n"), 0o644)
+			}},
+			{"garbage CURRENT with a good CURRENT.bak", func(d string) error {
+				b, err := os.ReadFile(filepath.Join(d, "CURRENT"))
+				if err != nil {
+					return err
+				}
+				if err := os.WriteFile(filepath.Join(d, "CURRENT.bak"), b, 0o644); err != nil {
+					return err
+				}
+				return os.WriteFile(filepath.Join(d, "CURRENT"), []byte("MANIF"), 0o644)
+			}},
+		}
+		for pi, pr := range preps {
+			d := filepath.Join(root, fmt.Sprintf("unclean%d", pi))
+			if err := copyDir(dir, d); err != nil {
+				fail("cannot copy the directory: %v", err)
+				continue
+			}
+			if err := pr.f(d); err != nil {
+				fail("cannot prepare %q: %v", pr.name, err)
+				continue
+			}
+			b4, err := snapshotDir(d)
+			if err != nil {
+				fail("cannot read the directory: %v", err)
+				continue
+			}
+			rd, err := leveldb.OpenFile(d, ro)
+			if err != nil {
+				notes = append(notes, fmt.Sprintf("read-only OpenFile with %s: %v", pr.name, err))
+			} else {
+				if x := checkData(rd, oracle, pool, comparer.DefaultComparer, "file storage: read-only DB, "+pr.name); x != "" {
+					fails = append(fails, x)
+				}
+				if err := rd.Put(pool[0], []byte("x"), nil); err != leveldb.ErrReadOnly {
+					fail("Put on a read-only DB (%s): %v, expected ErrReadOnly", pr.name, err)
+				}
+				if err := rd.Close(); err != nil {
+					fail("Close of the read-only DB (%s): %v", pr.name, err)
+				}
+			}
+			aft, err := snapshotDir(d)
+			if err != nil {
+				fail("cannot read the directory: %v", err)
+				continue
+			}
+			if x := diffDir(b4, aft); x != "" {
+				fail("a DB opened read-only changed the directory (%s): %s", pr.name, x)
+			}
+			// the read-write open must still find the data afterwards
+			wd, err := leveldb.OpenFile(d, o)
+			if err != nil {
+				fail("read-write OpenFile after the read-only owner of a directory with %s: %v", pr.name, err)
+			} else {
+				if x := checkData(wd, oracle, pool, comparer.DefaultComparer, "file storage: read-write DB after "+pr.name); x != "" {
+					fails = append(fails, x)
+				}
+				wd.Close()
+			}
+			stats["fs_read_only_unclean_pointer_checks"]++
+		}
+	}
+
 	// ---- 4. available again for a writer; a missing directory is not created by a read-only open
 	db, err = leveldb.OpenFile(dir, o)
 	if err != nil {
@@ -280,4 +378,28 @@ func fileStorageChecks(r *vlib.RNG, base string) (fails []string, stats map[stri
 	}
 	stats["fs_reopen_checks"]++
 	return
+}
+
+// copyDir copies the regular files of a flat directory (a DB directory has no sub-directories), keeping mtimes.
+func copyDir(src, dst string) error {
+	if err := os.MkdirAll(dst, 0o755); err != nil {
+		return err
+	}
+	ents, err := os.ReadDir(src)
+	if err != nil {
+		return err
+	}
+	for _, e := range ents {
+		if e.IsDir() {
+			continue
+		}
+		b, err := os.ReadFile(filepath.Join(src, e.Name()))
+		if err != nil {
+			return err
+		}
+		if err := os.WriteFile(filepath.Join(dst, e.Name()), b, 0o644); err != nil {
+			return err
+		}
+	}
+	return nil
 }
